@@ -275,6 +275,13 @@ def main():
         import re as _re
         m = _re.search(r'File "\./([^"]+)", line (\d+)', out_make)
         broken_theorem = "%s:%s" % (m.group(1), m.group(2)) if m else "coq build"
+    chk_summary = None
+    if tier == "thorough" and ok_make and not problems:
+        ok_chk, chk_summary = vlib.coqchk(prop_file)
+        if not ok_chk:
+            problems.append("coqchk does not confirm %s: %s" % (prop_file, chk_summary))
+            broken_theorem = broken_theorem or "coqchk %s" % prop_file
+            discharged = 0
     forb = vlib.scan_forbidden()
     if forb:
         problems.append("forbidden vernacular: %s" % forb[:5])
@@ -427,7 +434,7 @@ def main():
         obligations=obligations, discharged=discharged,
         checker_cmd="cd coq && coq_makefile -f _CoqProject -o Makefile && make %s && coqc -Q . RS %s  (Print Assumptions parsed; forbidden-vernacular scan)" % (prop_file.replace(".v", ".vo"), prop_file),
         trusted_base=TRUSTED_BASE,
-        theorems=thms, axioms_reported=axioms, shape_unparsed=unparsed,
+        theorems=thms, axioms_reported=axioms, shape_unparsed=unparsed, coqchk=chk_summary,
         traces_validated_against_impl=accepted,
         evaluations=len(runs), distinct_nontrivial=len(distinct),
         rule="seeded director scripts (families %s) + committed corpus, each run on the real rsactor (tokio current_thread, paused clock) and accepted round by round by the extracted Coq model under projection %s; a script is non-trivial when it reached at least one handler entry and one termination or fault; distinct by script hash" % ([f[0] for f in cfg["families"]], cfg.get("projection", pid)),
